@@ -80,6 +80,7 @@ def tasks(tier, seed):
             out.append({"fn": "order", "kwargs": {"layout": [[a, 2], [b, 1]], "readouts": 3, "debug": True, "via": "python", "mode": "exposure"},
                         "label": f"pairs3/{CANON[a]},{CANON[b]}"})
     out.append({"fn": "absent", "kwargs": {}, "label": "absent_groups"})
+    out.append({"fn": "aliased", "kwargs": {}, "label": "aliased_entries"})
     # the same pipeline object used again after its on/off pattern was changed (notebook workflow)
     for n, touch in enumerate(("run", "repr", "iterate")):
         a, b = pairs[(3 * n + seed) % len(pairs)]
@@ -330,6 +331,33 @@ def reconfigure(layout, touch):
     vx.prove(f"C01/reconfigure/{touch}", got == _reconfigure_want(layout, flags2))
 
 
+def aliased():
+    """YAML anchors / aliases hand the loader the *same* mapping object for several entries (a disabled noise model listed twice, the
+    same entry in two groups): every occurrence keeps its own configured flag and arguments, and converting the mapping does not change it."""
+    import copy as _copy
+
+    import pyxel
+    from pyxel.configuration.configuration import to_pipeline
+    from pyxel.exposure import Exposure, Readout
+
+    en = vx.boolean("en_shared")
+    shared = {"name": "noise", "func": "vxprobes.probe_b", "enabled": en, "arguments": {"tag": ["shared", 0], "a": vx.integer("a_shared"), **EXTRA_ARGS}}
+    other = {"name": "first", "func": "vxprobes.probe", "enabled": True, "arguments": {"tag": ["other", 0]}}
+    dct = {"scene_generation": [{"name": "init", "func": "vxprobes.init_buckets"}], "photon_collection": [other, shared], "charge_measurement": [shared], "readout_electronics": [shared, other]}
+    pipe = to_pipeline(dct)
+    vxprobes.reset(_hook)
+    try:
+        pyxel.run_mode(mode=Exposure(readout=Readout(times=[1.0, 2.0])), detector=make_ccd(2, 2), pipeline=pipe)
+        got = [(r["step"], tuple(r["tag"])) for r in vxprobes.TRACE]
+    finally:
+        vxprobes.reset(None)
+    per_step = [("other", 0)] + ([("shared", 0)] * 3 if bool(en) else []) + [("other", 0)]
+    if bool(en):
+        per_step = [("other", 0), ("shared", 0), ("shared", 0), ("shared", 0), ("other", 0)]
+    want = [(st, t) for st in range(2) for t in per_step]
+    vx.prove("C01/aliased/every_occurrence_keeps_its_flag", got == want, got=str(got)[:200])
+
+
 def absent():
     """Absent groups (None, [], key missing) never execute and do not disturb the others."""
     import pyxel
@@ -350,6 +378,25 @@ def absent():
 
 
 def replay(oid, kwargs, model, data):
+    if data["fn"] == "aliased":
+        import pyxel
+        from pyxel.configuration.configuration import to_pipeline
+        from pyxel.exposure import Exposure, Readout
+
+        en = bool(model.get("en_shared", False))
+        shared = {"name": "noise", "func": "vxprobes.probe_b", "enabled": en, "arguments": {"tag": ["shared", 0], "a": int(model.get("a_shared", 0)), **EXTRA_ARGS}}
+        other = {"name": "first", "func": "vxprobes.probe", "enabled": True, "arguments": {"tag": ["other", 0]}}
+        dct = {"scene_generation": [{"name": "init", "func": "vxprobes.init_buckets"}], "photon_collection": [other, shared], "charge_measurement": [shared], "readout_electronics": [shared, other]}
+        pipe = to_pipeline(dct)
+        vxprobes.reset(_hook)
+        try:
+            pyxel.run_mode(mode=Exposure(readout=Readout(times=[1.0, 2.0])), detector=make_ccd(2, 2), pipeline=pipe)
+            got = [(r["step"], tuple(r["tag"])) for r in vxprobes.TRACE]
+        finally:
+            vxprobes.reset(None)
+        per_step = [("other", 0), ("shared", 0), ("shared", 0), ("shared", 0), ("other", 0)] if en else [("other", 0), ("other", 0)]
+        want = [(st, t) for st in range(2) for t in per_step]
+        return got != want, {"shared_entry_enabled": en, "executed": got, "expected": want}
     if data["fn"] == "reconfigure":
         layout = kwargs["layout"]
         f1 = {(g, k): bool(model.get(f"en_{g}_{k}", False)) for g, n in layout for k in range(n)}
